@@ -16,14 +16,21 @@
    filled regions, clockwise around holes; x to the right, y upwards); a contour vertex that
    lies in its own cell is within sqrt 2 * h of the zero set of any field continuous along
    lattice edges with these corner signs.
-   Oracle-only part: grids with cells of different levels (merged cells).  On uniform grids
-   "the loops wind around the solid" is no longer oracle-only.  Not proved (and false in the
+   ADAPTIVE QUADTREES (Render/QuadTree.v, QuadTreeSem.v): the topological part of
+   DCTree<2>::collectChildren (merging, cornersAreManifold / isManifold / leafsAreManifold, collapse
+   into a leaf of level region.level, the numerical tests an arbitrary oracle), the recursive walk
+   Dual<2>::work / edge2 and DCContourer::load with its minimum-level rule, on trees whose leaves have
+   different sizes: the collapse tests preserve the lattice-sign invariant, the soup of ANY consistent
+   tree is a disjoint union of directed cycles, and every welded contour is closed -- for every sign
+   assignment of the lattice with a clear region boundary, every depth and every verdict of the
+   numerical tests.  "The loops wind around the solid" on adaptive trees stays with the oracle.  Not proved (and false in the
    implementation, see the recorded finding): that the unclamped QEF vertex stays in its cell;
    it is an explicit hypothesis of C10_contour_vertices_near_surface. *)
 From Coq Require Import List Arith Permutation.
 From Coq Require Import ZArith Bool Reals.
 From LF Require Import Render.Contours Render.ContoursSem Gen.MarchTables_gen Render.DCGrid2 Render.DCGrid2Sem.
 From LF Require Import Render.DCBoundary2.
+From LF Require Render.QuadTree Render.QuadTreeSem.
 Import ListNotations.
 
 (* nothing is lost, duplicated or invented: the consecutive pairs of the returned polylines
@@ -182,6 +189,70 @@ Proof.
           split; [exact contour_vertices_near_curve | exact disc_example]]].
 Qed.
 
+(* ------------------------------------------------------------------ *)
+(* adaptive quadtrees: cells of different levels, collapsed cells        *)
+(* ------------------------------------------------------------------ *)
+Import QuadTree QuadTreeSem.
+
+(* COLLAPSING IS TOPOLOGY-SAFE: one bottom-up pass of collectChildren (for EVERY verdict [ok] of the
+   numerical tests) keeps the tree consistent with the lattice signs: merged cells are uniform, a
+   collapsed leaf stores the signs of its own corners, has a mixed manifold mask and no filled, empty,
+   filled pattern along any of its sides *)
+Theorem C10_collapse_preserves_invariant : forall ins ok t o k p,
+  consistent ins t o k -> consistent ins (QuadTree.collect ok k p t) o k.
+Proof. exact collect_consistent. Qed.
+
+(* EMISSION ON ANY CONSISTENT ADAPTIVE TREE: every contour vertex (leaf, patch) is left exactly as
+   often as it is entered, and at most once -- whatever the levels of neighbouring leaves *)
+Theorem C10_adaptive_walk_balanced : forall ins t k,
+  consistent ins t (0, 0)%Z k -> boundary_clear ins k ->
+  forall v, qout_deg v (contour_walk t) = qin_deg v (contour_walk t) /\ (qout_deg v (contour_walk t) <= 1)%nat.
+Proof. exact walk_balanced. Qed.
+
+(* COLLAPSE + WALK + WELDING: every contour returned for an adaptive quadtree is a closed polyline *)
+Theorem C10_adaptive_contours_closed : forall ins ok pre k idx,
+  consistent ins pre (0, 0)%Z k -> boundary_clear ins k ->
+  let soup := contour_walk (QuadTree.collect ok k [] pre) in
+  qinj_on idx soup ->
+  forall l, In l (Contours.collect (qrenum idx soup)) -> closed l.
+Proof. exact adaptive_contours_closed_any. Qed.
+
+(* the hypotheses are satisfiable by EVERY lattice sign function: pruning + subdivision to unit cells
+   ([build]) gives a consistent tree, so the whole pipeline is closed for every solid strictly inside
+   the region, every depth and every verdict of the numerical tests *)
+Theorem C10_adaptive_pipeline_closed : forall ins ok k,
+  boundary_clear ins k ->
+  let soup := contour_walk (QuadTree.collect ok k [] (build ins k (0, 0)%Z)) in
+  (forall v, qout_deg v soup = qin_deg v soup /\ (qout_deg v soup <= 1)%nat) /\
+  (forall l, In l (Contours.collect (qrenum (qcanon_idx soup) soup)) -> closed l).
+Proof. exact adaptive_pipeline_closed. Qed.
+
+(* the run-time checkers of the correspondence stage decide the hypotheses soundly *)
+Theorem C10_adaptive_checkers_sound : forall ins,
+  (forall t o k, consistentb ins t o k = true -> consistent ins t o k) /\
+  (forall k, boundary_clearb ins k = true -> boundary_clear ins k).
+Proof. intros ins; split; [exact (consistentb_sound ins) | exact (boundary_clearb_sound ins)]. Qed.
+
+(* NON-VACUITY: a 16 x 16 lattice whose collapsed tree has leaves of levels 3, 2, 1 and 0 next to each
+   other; its 11 segments weld into one closed polyline *)
+Theorem C10_adaptive_example :
+  consistentb ins_notch post_notch (0, 0)%Z 4%nat = true /\
+  (let s := contour_walk post_notch in
+   Contours.collect (qrenum (qcanon_idx s) s) = [[0; 8; 4; 7; 2; 1; 5; 10; 6; 3; 9; 0]]%nat).
+Proof. split; [exact notch_post_consistent | exact notch_contours]. Qed.
+
+(* NECESSITY: collapsing a cell on which leafsAreManifold fails gives a vertex of degree 2 / 2, and a
+   solid touching the region boundary an open segment *)
+Theorem C10_collapse_tests_needed :
+  consistentb ins_two bad_two (0, 0)%Z 3%nat = false /\
+  qout_deg ([3; 0]%Z, 0%Z) (contour_walk bad_two) = 2%nat /\ qin_deg ([3; 0]%Z, 0%Z) (contour_walk bad_two) = 2%nat.
+Proof. destruct collapse_tests_needed as (_ & _ & _ & _ & _ & A & B & C & _). auto. Qed.
+Theorem C10_boundary_clear_needed :
+  let t := build ins_edge 1%nat (0, 0)%Z in
+  consistentb ins_edge t (0, 0)%Z 1%nat = true /\ boundary_clearb ins_edge 1%nat = false /\
+  contour_walk t = [(([0]%Z, 0%Z), ([2]%Z, 0%Z))].
+Proof. exact boundary_clear_needed. Qed.
+
 Print Assumptions C10_segments_preserved.
 Print Assumptions C10_polylines_are_paths.
 Print Assumptions C10_loops_are_closed.
@@ -194,3 +265,11 @@ Print Assumptions C10_contours_separate_inside_from_outside.
 Print Assumptions C10_contours_wind_consistently.
 Print Assumptions C10_boundary_examples.
 Print Assumptions C10_contour_vertices_near_surface.
+Print Assumptions C10_collapse_preserves_invariant.
+Print Assumptions C10_adaptive_walk_balanced.
+Print Assumptions C10_adaptive_contours_closed.
+Print Assumptions C10_adaptive_pipeline_closed.
+Print Assumptions C10_adaptive_checkers_sound.
+Print Assumptions C10_adaptive_example.
+Print Assumptions C10_collapse_tests_needed.
+Print Assumptions C10_boundary_clear_needed.
